@@ -63,6 +63,14 @@ CHECKS["C14"] = ("E1", "deterministic simulation, metamorphic: one seeded traffi
   "exploration",
   "Covers flow throttling (queue position), warm-up (tokens), private-window reject rule, circuit breaker (state, deadline), hotspot QPS and concurrency counters, whole-set and per-resource reload paths. Sampling of histories, reload positions and edits.",
   "Trusted: full reset between the two runs (harness.Reset + overlay reset of the inbound node); the other rules never block so that R alone governs the trace.", "DESIGN.md §3 C14")
+CHECKS["C16"] = ("E1", "deterministic simulation with fault injection: seeded chains of scripted recording slots (colliding order values; pass / nil / block via fresh or pooled result / panic per entry), exit handlers that panic, entries exited in any order under a seeded pool policy; call-log and outcome model checked after every operation",
+  "exploration",
+  "Call order == stable sort by order per kind, prepare -> check -> statistic, stop at the first block; returned block error is the first blocker's; without panics each statistic slot is told the outcome once and the completion iff passed; no panic escapes Entry or Exit and a panicking request is admitted; returned *BlockError objects keep their fields while later entries recycle pooled objects. Sampling of chains and histories.",
+  "Trusted: the scripted slots and the call log (harness code); SimPool as a faithful sync.Pool behaviour subset.", "DESIGN.md §3 C16")
+CHECKS["C17"] = ("E4", "deterministic simulation with crash-point enumeration: seeded per-second write batches and queries on ONE searcher against real files in a tmpfs scratch directory under the virtual clock; oracle = the harness's own parse of the retained files + the list of accepted items; every 4th run enumerates EVERY truncation offset of the last data file and of its index file on a copy and re-queries with a fresh searcher",
+  "fault_enumeration",
+  "Fault-free part (sampled histories): retained files hold a suffix of the accepted items unchanged, at most max_files files, every query answer equals the matching retained items in order without duplicates (line-limited queries: a long-enough prefix). Crash part (exhaustive per generated final state): for each byte offset of the last data file and of its index file: no error, no panic, only written items unchanged and in order, and every item whose line and reachable index entry lie wholly before the cut is returned.",
+  "Trusted: the harness's line parser and index parser (independent of the implementation's), tmpfs as the disk. Truncation is the only crash model (no reordering of writes between the two files).", "DESIGN.md §3 C17")
 NOT_YET = {}
 props = [json.loads(l) for l in open(os.path.join(HERE, 'properties.jsonl'))]
 checks, na = [], []
